@@ -39,6 +39,33 @@ int2float_ok = z3.Function("int2float_ok", smt.I, smt.B)
 to_float = z3.Function("to_float", smt.R, smt.R)     # nearest double of a real (ints converted to float)
 
 
+ssplit = z3.Function("str_split", smt.S, smt.S, V)                 # s.split(sep) -> list of str
+str_replace = z3.Function("str_replace_all", smt.S, smt.S, smt.S, smt.S)   # s.replace(a, b)
+unquote_f = z3.Function("unquote", smt.S, smt.S)                   # urllib.parse.unquote
+py_isdigit = z3.Function("py_isdigit", smt.S, smt.B)
+py_isascii = z3.Function("py_isascii", smt.S, smt.B)
+py_int_ok = z3.Function("py_int_ok", smt.S, smt.B)                 # int(s) does not raise ValueError
+py_int_val = z3.Function("py_int_val", smt.S, smt.I)
+ASCII_DIGITS = z3.Plus(z3.Range("0", "9"))
+
+
+@smt.register_axioms
+def _str_axioms(names):
+    ax = []
+    s, sep = z3.String("s"), z3.String("sep")
+    i = z3.Int("i")
+    if "str_split" in names:
+        sp = ssplit(s, sep)
+        ax.append(z3.ForAll([s, sep], z3.And(kind(sp) == K_LIST, llen(sp) >= 1, smt.isjson(sp)), patterns=[sp]))
+        ax.append(z3.ForAll([s, sep, i], z3.Implies(z3.And(0 <= i, i < llen(sp)), kind(lget(sp, i)) == K_STR), patterns=[lget(sp, i)]))
+    if names & {"py_isdigit", "py_isascii", "py_int_ok", "py_int_val"}:
+        # assumed str contracts (DESIGN.md section 5): isdigit() is false for "", and, together with
+        # isascii(), true exactly on [0-9]+ ; int(s) on [0-9]+ is its decimal value.  The regular-language
+        # side of these is used only in the separately discharged string lemmas.
+        ax.append(z3.ForAll([s], z3.Implies(py_isdigit(s), z3.Length(s) >= 1), patterns=[py_isdigit(s)]))
+    return ax
+
+
 @smt.register_axioms
 def _prim_axioms(names):
     ax = []
@@ -88,6 +115,16 @@ class SliceVal:
 
     def __init__(self, base, lo):
         self.base, self.lo = base, lo
+
+
+def str_slice_from(sv, a):
+    """Python s[a:] on strings (start clamped into [0, len]) as an SMT term"""
+    sl = z3.Length(sv)
+    if z3.is_int_value(a) and a.as_long() >= 0:
+        k = a.as_long()
+        return sv if k == 0 else z3.If(sl >= k, z3.SubString(sv, k, sl - k), z3.StringVal(""))
+    a3 = z3.If(a < 0, z3.If(a + sl < 0, 0, a + sl), z3.If(a > sl, sl, a))
+    return z3.SubString(sv, a3, sl - a3)
 
 
 class ItemsView:
@@ -645,7 +682,7 @@ def subscript(I, st, obj, key):
             out = []
             for s, p in branch(ctx, st, cases):
                 if p == "str":
-                    ctx.refute_or_oos(s, "string slice")
+                    out.append((s, SV(smt.mk_str(str_slice_from(sval(obj.t), a)))))
                     continue
                 out.append((s, p))
             return out
@@ -764,6 +801,10 @@ def call_builtin(I, st, name, args, kwargs, node=None):
         return prim_int(I, st, args[0])
     if name == "bool":
         return [(st, SB(truth(ctx, st, args[0])))]
+    if name == "urllib.parse.unquote":
+        a = to_sv(args[0])
+        cases = [(smt.kd(a.t, K_STR), SV(smt.mk_str(unquote_f(sval(a.t))))), (z3.Not(smt.kd(a.t, K_STR)), raised("TypeError", "unquote"))]
+        return branch(ctx, st, cases)
     if name == "fractions.Fraction":
         return prim_fraction(I, st, args[0])
     if name == "re.search":
@@ -1049,6 +1090,22 @@ def prim_int(I, st, x):
         r = hook(I, st, x)
         if r is not None:
             return r
+    if isinstance(x, SV):
+        t = x.t
+        sv = sval(t)
+        cases = [(z3.And(smt.kd(t, K_STR), py_int_ok(sv)), SInt(py_int_val(sv))),
+                 (z3.And(smt.kd(t, K_STR), z3.Not(py_int_ok(sv))), raised("ValueError", "int(str)")),
+                 (smt.kd(t, K_INT), SInt(ival(t))),
+                 (smt.kd(t, K_BOOL), SInt(z3.If(bval(t), 1, 0))),
+                 (smt.is_kind(t, K_NONE, K_LIST, K_DICT), raised("TypeError", "int()")),
+                 (smt.kd(t, K_FLOAT), "float")]
+        out = []
+        for s, p in branch(ctx, st, cases):
+            if p == "float":
+                ctx.refute_or_oos(s, "int(float value)")
+                continue
+            out.append((s, p))
+        return out
     raise OutOfSubset("int(%r)" % (x,))
 
 
@@ -1194,6 +1251,32 @@ def sv_method(I, st, obj, name, args, kwargs):
         return [(st, Opaque("join", [obj, a]))]
     if name in ("format", "title", "replace", "lower", "upper") and obj.known and isinstance(obj.conc, str) and name == "format":
         return [(st, Opaque("format", [obj] + list(args)))]
+    if name in ("startswith", "split", "replace", "isdigit", "isascii", "lstrip", "strip"):
+        isstr = smt.kd(t, K_STR)
+        sv = sval(t)
+
+        def const(a):
+            if isinstance(a, SV) and a.known and isinstance(a.conc, str):
+                return z3.StringVal(a.conc)
+            if isinstance(a, SV):
+                return sval(a.t)
+            if isinstance(a, SStr):
+                return a.t
+            raise OutOfSubset("string method argument %r" % (a,))
+        if name == "startswith":
+            val = SB(z3.PrefixOf(const(args[0]), sv))
+        elif name == "split":
+            val = SV(ssplit(sv, const(args[0])))
+        elif name == "replace":
+            val = SV(smt.mk_str(str_replace(sv, const(args[0]), const(args[1]))))
+        elif name == "isdigit":
+            val = SB(py_isdigit(sv))
+        elif name == "isascii":
+            val = SB(py_isascii(sv))
+        else:
+            val = SV(smt.mk_str(z3.Function("str_" + name, smt.S, smt.S, smt.S)(sv, const(args[0]) if args else z3.StringVal(" "))))
+        cases = [(isstr, val), (z3.Not(isstr), raised("AttributeError", "." + name))]
+        return branch(ctx, st, cases)
     hook = ctx.config.get("sv_method_hook")
     if hook:
         r = hook(I, st, obj, name, args, kwargs)
